@@ -495,6 +495,110 @@ def shrink_insertion(s, g, t, fails):
                 pass
     return cur
 
+# ------------------------------------------------------------------ exhaustive comment insertion + lookahead coverage
+
+TRAILING_CTX = re.compile(r'checkTrailing\(\s*tokens\.\w+\s*,\s*tokens\.\w+\s*,\s*"([^"]+)"')
+
+def lookahead_sites():
+    """Every place where the parser looks further ahead than one token, read from the working tree on every run:
+    direct uses of Parser.next(), the contexts of checkTrailing (which calls next()), and isCompositeLiteral (save /
+    advance / restore).  Returns (list of 'file:line: code', direct next() uses outside checkTrailing, trailing contexts)."""
+    d = os.path.join(common.REPO, "internal", "frontend", "parser")
+    sites = []; direct = []; ctxs = []
+    for fn in sorted(os.listdir(d)):
+        if not fn.endswith(".go") or fn.endswith("_test.go"):
+            continue
+        infn = None
+        for i, ln in enumerate(open(os.path.join(d, fn), encoding="utf8", errors="replace").read().splitlines(), 1):
+            m = re.match(r"func \(p \*Parser\) (\w+)\(", ln)
+            if m:
+                infn = m.group(1)
+            hit = False
+            if "p.next()" in ln:
+                hit = True
+                if infn != "checkTrailing":
+                    direct.append("%s:%d (%s)" % (fn, i, infn))
+            m = TRAILING_CTX.search(ln)
+            if m:
+                hit = True; ctxs.append(m.group(1))
+            if "p.isCompositeLiteral()" in ln or "p.current = savedPos" in ln or "savedPos := p.current" in ln:
+                hit = True
+            if hit:
+                sites.append("%s:%d: %s" % (fn, i, ln.strip()[:110]))
+    return sites, direct, sorted(set(ctxs))
+
+# constructs of corpus/C19/lookahead*.fer, keyed by what the coverage rule looks for
+KNOWN_DIRECT_NEXT = {"parseCatchClause"}        # `catch e {` : covered by corpus/C19/lookahead.fer and smoke 06/18
+
+def exhaustive(run, texts, quick):
+    """Comment insertion at EVERY token gap of the small hand-written programs (corpus/C19 always; the smoke corpus as far
+    as the budget allows in the quick tier, all of it in the thorough tier): `/*c*/` directly after every token and
+    `//c NL` directly before every token (thorough: both kinds at both ends).  Observables: verdict, diagnostics modulo the
+    position shift.  Also the coverage rule for the parser's look-ahead sites."""
+    sites, direct, ctxs = lookahead_sites()
+    run.extra["parser_lookahead_sites"] = sites
+    run.extra["parser_lookahead_constructs"] = {
+        "direct next()": direct, "checkTrailing contexts": ctxs,
+        "covered by": "corpus/C19/lookahead.fer (catch e {..}, catch {..}, trailing , in fn parameters / fn-type parameters / struct / enum / "
+                      "union / composite literal, trailing ; in interface, `else if`, closure, method receiver, match arms), "
+                      "corpus/C19/lookahead_t.fer (isCompositeLiteral: {} / number, string, identifier keys)"}
+    progs = []
+    cdir = os.path.join(common.VERIF, "corpus", "C19")
+    for fn in sorted(os.listdir(cdir)):
+        if fn.endswith(".fer"):
+            progs.append(("corpus:" + fn, open(os.path.join(cdir, fn), "rb").read()))
+    sm = os.path.join(common.REPO, "smoke_test")
+    sfn = sorted(fn for fn in os.listdir(sm) if fn.endswith(".fer"))
+    run.rng.shuffle(sfn)
+    smoke = [("smoke:" + fn, open(os.path.join(sm, fn), "rb").read()) for fn in sfn]
+    lx = run_hook_on(texts, [b for _, b in progs + smoke], "lex")
+    budget = 1500 if quick else 10 ** 9
+    chosen = []
+    for name, b in progs + smoke:
+        r = lx[b]
+        if not r.get("toks"):
+            continue
+        cost = (2 if quick else 4) * len(r["toks"])
+        if name.startswith("smoke:") and cost > budget:
+            continue
+        budget -= cost
+        chosen.append((name, b, r["toks"]))
+    cases = []
+    for name, b, toks in chosen:
+        gs = set(gaps_of(b, toks))
+        ends = sorted(set(t[7] for t in toks if t[0] != "end_of_file") & gs)
+        starts = sorted(set(t[4] for t in toks) & gs)
+        plan = [(g, b"/*c*/") for g in ends] + [(g, b"//c\n") for g in starts]
+        if not quick:
+            plan += [(g, b"//c\n") for g in ends if g not in starts] + [(g, b"/*c*/") for g in starts if g not in ends]
+        for g, t in plan:
+            cases.append((name, b, g, fuse_gate(b, g, t)))
+    news = [b[:g] + t + b[g:] for (_, b, g, t) in cases]
+    dg = run_hook_on(texts, [b for _, b, _ in chosen] + news, "diag")
+    run.extra["exhaustive_programs"] = [n for n, _, _ in chosen]
+    nv = 0
+    for (name, b, g, t), s1 in zip(cases, news):
+        run.case((b, g, t), nontrivial=True)
+        run.count("exhaustive:" + ("block" if t.endswith(b"*/") else "line"))
+        w = check_diags(b, s1, g, len(t), dg[b], dg[s1])
+        if w and nv < 4:
+            nv += 1
+            report(run, "diagnostics:%s:%d:%s" % (name, g, t.hex()),
+                   "inserting %r at byte %d of %s (directly %s %r): %s" % (
+                       t.decode(), g, name, "after" if t.endswith(b"*/") else "before",
+                       (b[max(0, g - 12):g] if t.endswith(b"*/") else b[g:g + 12]).decode("utf8", "replace"), w), b, g, t,
+                   {"oracle": "diagnostics", "stream": "exhaustive"})
+    # coverage rule (fail closed): every look-ahead site of the parser must be exercised by a base program
+    alld = [d["msg"] for _, b, _ in chosen for d in (dg[b].get("diags") or [])]
+    missing = [c for c in ctxs if not any(m.startswith("trailing") and m.endswith(" in " + c) for m in alld)]
+    unknown = [x for x in direct if not any(x.endswith("(%s)" % k) for k in KNOWN_DIRECT_NEXT)]
+    if missing or unknown:
+        run.violation("lookahead-coverage:" + ",".join(missing + unknown),
+                      "the parser has look-ahead sites that no base program of corpus/C19 exercises: trailing-separator contexts %s, "
+                      "direct next() uses %s — extend corpus/C19/lookahead.fer" % (missing, unknown),
+                      {"sites": sites}, no_input=True)
+
+
 def _tm(run, label):
     import time
     now = time.time()
@@ -655,8 +759,10 @@ def main(run):
                        "program output changed by inserting %r at byte %d of %s: %r -> %r" % (
                            c["t"].decode("utf8", "replace"), c["g"], c["name"], outs[0], outs[1]), c["s"], c["g"], c["t"])
 
-    # ---------------- dedicated streams for the open findings and the necessity witnesses
     _tm(run, "native")
+    exhaustive(run, texts, quick)
+    _tm(run, "exhaustive")
+    # ---------------- dedicated streams for the open findings and the necessity witnesses
     special(run, texts, progs, lexp)
     _tm(run, "special")
 
